@@ -116,6 +116,10 @@ enum Op {
     /// let n physical commits through and wait for their after-commit work
     Commit(u32),
     Churn(u8), // force maintenance: 0 single map, 1 dynamic map, 2 set map
+    /// arm: the next read that goes to the backing store (a cache fill) has one commit and its
+    /// after-commit work placed inside it - after the store handed out its data, before the
+    /// fill continues
+    MidCommit,
     SGet(u32),
     SIns(u32, u64),
     SRem(u32),
@@ -232,6 +236,7 @@ fn gen_ops(r: &mut Rng, n: usize, big_sets: bool) -> Vec<Op> {
             29..=33 => Op::KIns(key(r), el),
             34..=36 => Op::KRem(key(r), el),
             37 if big_sets => Op::KGrow(key(r), 100, 100 + 600 + r.below(600)),
+            37 | 39 => Op::MidCommit,
             38 if big_sets => Op::KShrink(key(r), 100, 100 + 1300),
             _ => Op::KGet(key(r)),
         });
@@ -275,6 +280,10 @@ fn run_history(ops: &[Op], cap: u64, workers: usize, seed: u64, rep: &mut Report
                 }
             }
             Op::Commit(n) => {
+                if let Some(f) = w.shared.after_read_once.lock().take() {
+                    f(); // armed but no store read happened since: the commit happens now
+                    rep.count("commits_placed", 1);
+                }
                 // commits are in creation order: only batches whose
                 // predecessors are all submitted can commit. We release up to
                 // n permits for what is committable.
@@ -288,6 +297,21 @@ fn run_history(ops: &[Op], cap: u64, workers: usize, seed: u64, rep: &mut Report
                     if !w.settle() {
                         bad!("commit-did-not-happen", "released {can} commits, store has {} of {}", w.shared.commit_count(), w.committed_target);
                     }
+                }
+            }
+            Op::MidCommit => {
+                let committable = w.open.iter().position(|b| b.is_some()).unwrap_or(w.open.len()) as u64;
+                if committable > w.committed_target && w.shared.after_read_once.lock().is_none() {
+                    w.committed_target += 1;
+                    let (sh, target, base) = (w.shared.clone(), w.committed_target, w.ac_base);
+                    *w.shared.after_read_once.lock() = Some(Box::new(move || {
+                        sh.release(1);
+                        let t0 = Instant::now();
+                        while ((sh.commit_count() as u64) < target || hooks::hit_count("wb:after_commit_done") - base < target) && t0.elapsed() < Duration::from_secs(10) {
+                            std::thread::sleep(Duration::from_micros(100));
+                        }
+                    }));
+                    rep.count("commits_armed_inside_a_store_read", 1);
                 }
             }
             Op::Churn(m) => {
@@ -419,6 +443,7 @@ fn run_history(ops: &[Op], cap: u64, workers: usize, seed: u64, rep: &mut Report
         }
     }
     // drain: submit everything, open the gate, drop the pipeline
+    *w.shared.after_read_once.lock() = None;
     let store_reads = w.shared.reads.load(std::sync::atomic::Ordering::Relaxed)
         + w.shared.scans.load(std::sync::atomic::Ordering::Relaxed)
         - reads0;
@@ -828,6 +853,9 @@ fn worker_seq(ctx: &WorkerCtx) -> Report {
             ops.push(Op::KGet(2));
             if r.chance(1, 2) {
                 ops.extend([Op::Submit(0), Op::Commit(2), Op::KGet(2), Op::Churn(2), Op::KGet(2)]);
+            } else if r.chance(1, 2) {
+                // the second batch commits while the set is being loaded from the store
+                ops.extend([Op::Submit(0), Op::Churn(2), Op::MidCommit, Op::KGet(2), Op::KGet(2)]);
             }
             rep.count("directed_spill_histories", 1);
             ops
